@@ -217,7 +217,7 @@ def main():
         for nm, o in r['obls'].items(): allobs[nm] = (r, o)
     discharged = [nm for nm, (r, o) in allobs.items() if o['status'] == 'discharged']
     failing = [nm for nm, (r, o) in allobs.items() if o['status'] != 'discharged']
-    violations = []; known_hit = []; undecided_new = []; unbound = []
+    violations = []; known_hit = []; undecided_new = []; unbound = []; undecided_fns = set()
     broken_fns = {r['fn']: r for r in results if r['status'] != 'ok'}
     for nm in failing:
         r, o = allobs[nm]
@@ -237,8 +237,9 @@ def main():
         if nm in allobs: continue
         fn = nm.split('/')[0]
         if fn in broken_fns:
-            r = broken_fns[fn]
-            violations.append((nm, r, {'status': r['status'], 'text': r['error'], 'results': [r['status']], 'models': [], 'traces': [], 'where': '', 'kind': 'lost'}, 'the function can no longer be verified: %s' % (r['error'] or '')[:300]))
+            # the contract no longer binds to the code (renamed local, new loop without invariant, construct outside the supported subset):
+            # nothing is refuted, the function is UNDECIDED - reported loudly, never as a violation (a failed proof is not a counterexample)
+            undecided_fns.add(fn); unbound.append(nm)
         elif prog is not None and fn != '@owned' and not any(ir_short(prog, f) == fn.split(' @')[0] for f in prog.funcs):
             unbound.append(nm)
         elif fn not in [r['fn'] for r in results]:
@@ -282,7 +283,7 @@ def main():
             'solver_time_s': round(sum(o['time_s'] for r in results for o in r['obls'].values()), 2),
             'max_obligation_s': max([o['time_s'] / max(1, o['instances']) for r in results for o in r['obls'].values()] + [0]),
             'all_generated_obligations': len(allobs), 'all_discharged': len(discharged),
-            'known_findings': sorted(known_hit), 'undecided_new': sorted(undecided_new)[:200], 'contract_unbound': sorted(unbound)[:200],
+            'known_findings': sorted(known_hit), 'undecided_new': sorted(undecided_new)[:200], 'contract_unbound': sorted(unbound)[:200], 'undecided_functions': sorted(undecided_fns),
             'vacuity': {'reach_entry_sat': sum(1 for nm, (r, o) in allobs.items() if o['kind'] == 'reach' and o['status'] == 'discharged'),
                         'smoke_return_sat': sum(1 for nm, (r, o) in allobs.items() if o['kind'] == 'smoke' and o['status'] == 'discharged')},
             'integers': 'int/int64 mathematical (no wrap); narrower and unsigned types wrap explicitly',
@@ -300,7 +301,7 @@ def main():
     for nm in sorted(unbound)[:20]:
         print('warning: contract-unbound (locked obligation no longer generated): %s' % nm)
     for r in results:
-        if r['status'] != 'ok': print('warning: %s: %s: %s' % (r['fn'], r['status'], (r['error'] or '').split('\n')[0][:300]))
+        if r['status'] != 'ok': print('UNDECIDED property=%s function=%s: the contract no longer binds to the code (%s: %s); its obligations were not checked' % (pid, r['fn'], r['status'], (r['error'] or '').split('\n')[0][:300]))
     print('%s %s: %d functions, %d/%d claimed obligations discharged (%d generated, %d discharged), %.1fs' % (pid, tier, len(fns), len(claimed_ok), len(claimed), len(allobs), len(discharged), wall))
     if not violations:
         if not claimed:
